@@ -12,6 +12,10 @@ the wire drops is restored by the type's decoder or classified by hand as unobse
 ids do not collide, custom encoders and decoders agree on field order.  A new registered
 type, a new unexported field, a decoder that stops assigning a field, or a changed ext id
 re-opens these obligations.
+Part 3 is about streams: a small heap model of "Marshal hands a buffer to the transport,
+the transport writes it out later"; the regenerated facts about rpc.Codec's Marshal and
+Unmarshal (no pooled / package-level / per-codec buffer reachable, result freshly allocated)
+select the buffer policy, and under it every message of a stream arrives as sent.
 -/
 import ZenoModel.Lemmas.Codec
 import ZenoModel.Generated.Facts
@@ -205,6 +209,49 @@ example :
 /-- Unknown registry names are refused (`Unknown aggregate`), unknown ext ids too. -/
 example : dec (enc (.agg "MEDIAN" (.field "a") none none)) = none ∧
     dec (.ext 61 .mnil) = none := by decide
+
+/-! ## Part 3 — streams: the bytes handed to the transport stay the sender's message -/
+
+/-- Which buffer discipline the source has, as far as the regenerated facts can tell:
+    `Marshal` and `Unmarshal` of `rpc.Codec` (and every package-local function they call)
+    reference no package-level variable, no receiver field and no `sync.Pool`, what
+    `Marshal` returns is syntactically the result of an allocating library call, and
+    `Unmarshal` only forwards its input to the library (no local code keeps the receive
+    buffer). -/
+def policyOfFacts : BufPolicy :=
+  if Facts.codecFns.all (fun f => f.pkgVars.isEmpty && f.recvFields.isEmpty && !f.mentionsPool) &&
+     Facts.codecFns.any (fun f => f.name == "Marshal" && f.returnsFresh) &&
+     Facts.codecFns.any (fun f => f.name == "Unmarshal" && f.forwardsInputOnly)
+  then .fresh else .reused
+
+/-- The obligation on the source (regenerated each run): no pooled or shared buffer is
+    reachable from `Marshal`/`Unmarshal`; `Marshal` returns freshly allocated bytes. -/
+theorem marshal_result_is_fresh : policyOfFacts = .fresh := by decide
+
+/-- Whatever the sender marshals afterwards, a buffer already handed to the transport still
+    holds the same bytes (the contract gRPC's deferred frame writer relies on). -/
+theorem marshal_outputs_stable (heap : List Wire) (gs : List GEx) (i : Nat) (h : i < heap.length) :
+    (sendAll policyOfFacts heap gs).1[i]? = heap[i]? := by
+  rw [marshal_result_is_fresh]; exact sendAll_fresh_stable heap gs i h
+
+/-- A stream of messages marshalled back to back and written out by the transport as late
+    as it may arrives as exactly those messages, in order, none lost or mixed. -/
+theorem stream_delivers (gs : List GEx) :
+    delivered policyOfFacts gs = gs.map (fun g => some (enc g)) := by
+  rw [marshal_result_is_fresh]; exact delivered_fresh gs
+
+/-- … and every one of them decodes to an object observationally equal to what was sent. -/
+theorem stream_roundtrip (gs : List GEx) (h : ∀ g ∈ gs, g.linked = true) :
+    (delivered policyOfFacts gs).map (fun w => w.bind dec) = gs.map (fun g => some g.clearDeAgg) := by
+  rw [stream_delivers, List.map_map]
+  apply List.map_congr_left
+  intro g hg
+  simp [Function.comp, dec_enc_linked g (h g hg)]
+
+/-- Non-vacuity of the buffer model: with a recycled buffer the first of two messages is
+    delivered as the second (what the seeded sync.Pool change did to large messages). -/
+example : delivered .reused [exG, exP] = [some (enc exP), some (enc exP)] ∧
+    delivered .fresh [exG, exP] = [some (enc exG), some (enc exP)] := by decide
 
 /-- Known asymmetry, outside the property's observers: `Validate()` reads
     `binaryExpr.DeAggregated`, which does not survive.  The value expression of
